@@ -102,7 +102,14 @@ def run_unit(args):
     out = {'harness': hname, 'config': config, 'idx': idx, 'error': None}
     try:
         sys.setrecursionlimit(20000)
+        import signal
         from . import core, stubs
+
+        def _on_alarm(signum, frame):
+            raise core.HarnessError(f'work unit exceeded its wall-clock budget ({budget}s): inconclusive')
+        budget = int(os.environ.get('VERIF_UNIT_TIMEOUT', '900' if tier == 'quick' else '7200'))
+        signal.signal(signal.SIGALRM, _on_alarm)
+        signal.alarm(budget)
         from .ctx import SymCtx
         stubs.install()
         load_harnesses(prop)
@@ -170,6 +177,12 @@ def run_unit(args):
         })
     except BaseException as e:  # noqa
         out['error'] = ''.join(traceback.format_exception(type(e), e, e.__traceback__))[-4000:]
+    finally:
+        try:
+            import signal as _sig
+            _sig.alarm(0)
+        except Exception:
+            pass
     out['wall_s'] = time.time() - t0
     return out
 
